@@ -1,5 +1,6 @@
 import SJ.Drv.Base
 import SJ.Spec.Schema
+import SJ.Spec.SchemaExcl
 import SJ.Model.FromValue
 import SJ.Model.Typed
 import SJ.Spec.Ieee
@@ -10,7 +11,8 @@ import SJ.Spec.Ieee
   (`SJ.Model.Typed.deTypedTop`, `&str` source) run on the text the harness printed (`to_string(&value)`:
   ryu/itoa output is external, so the text travels with the case); lines recorded before the text was
   added (5 arguments) echo the third field;
-* spec (independent of the models): outside the statement's exclusions the three outcomes are all
+* spec (independent of the models): outside the statement's exclusions (`c16Excluded2`: `f32` targets, zero-length tuple
+  variants, and — schema-directed, `Schema.svArr` — an enum target with a struct variant `name` meeting `{name: [...]}`) the three outcomes are all
   `ERR`, or all `OK` with equal results (f64 leaves compared only when the harness says `F1`).
 -/
 namespace SJ.Drv.C16
@@ -99,7 +101,7 @@ def spec (s : Schema) (v : JV) (floats : Bool) (o b t : Outcome) (hint : String)
                 (match b with | .panic => ["C16 panic in the borrowed path (&Value)"] | _ => []) ++
                 (match t with | .panic => ["C16 panic in the text path (from_str of to_string)"] | _ => [])
   if !panics.isEmpty then panics
-  else if c16Excluded s v then []
+  else if c16Excluded2 s v then []
   else match o, b, t with
     | .err, .err, .err => []
     | .ok x, .ok y, .ok z =>
